@@ -90,17 +90,32 @@ REPLAY = ("save detail.python as /tmp/c15_replay.py, then: VERIF_REPO=/repo PYTH
 
 
 def run(ctx):
-    generate(ctx)
-    info = ctx.coq_props()
-    gen_txt = (ctx.coqdir / "GenLoop.v").read_text()
-    cp_flag = "copies_args_check : bool := true" in gen_txt and "copies_args_synth : bool := true" in gen_txt
+    try:
+        generate(ctx)
+        info = ctx.coq_props()
+        gen_txt = (ctx.coqdir / "GenLoop.v").read_text()
+        cp_flag = "copies_args_check : bool := true" in gen_txt and "copies_args_synth : bool := true" in gen_txt
+    except vlib.TranslatorError as e:
+        # fail closed: the loop no longer has a shape the translator can read, so no theorem is
+        # known to speak about it.  Still search the implementation for a concrete failing input.
+        res = ctx.coq_make(["C15/Overload.vo"])
+        names = [f"{f.name}:{n}" for f in sorted(ctx.coqdir.glob("*.v")) for n in vlib.count_theorems(f)]
+        info = {"ok": False, "obligations": len(names), "discharged": 0, "axioms": [], "theorems": names,
+                "log": f"translator failed closed: {e}\n" + res.log[-2000:], "failed": f"translator: {e}"}
+        cp_flag = None
     r = vlib.rng(ctx.seed, "C15")
     corpus = load_corpus(ctx)
-    n_mono, n_gen = (260, 60) if ctx.quick else (3000, 500)
-    mono = [c for c in corpus if not c.get("generic")] + [G.gen_case(r) for _ in range(n_mono)]
+    n_mono, n_sens, n_gen = (130, 70, 40) if ctx.quick else (2000, 1000, 500)
+    mono = [c for c in corpus if not c.get("generic")] + [G.gen_case(r) for _ in range(n_mono)] \
+        + [G.gen_sensitive_case(r) for _ in range(n_sens)]
     generic = [c for c in corpus if c.get("generic")] + [G.gen_generic_case(r) for _ in range(n_gen)]
     cases = mono + generic
-    impl = run_impl(ctx, cases, jobs=8 if ctx.quick else 14)
+    import time
+    phases = {"coq_props": round(time.time() - ctx.t0, 1)}
+    t1 = time.time()
+    impl = run_impl(ctx, cases, jobs=10 if ctx.quick else 14)
+    phases["implementation"] = round(time.time() - t1, 1)
+    t1 = time.time()
 
     # ---- model side
     model = None
@@ -112,14 +127,17 @@ def run(ctx):
     else:
         ctx.notes.append("Overload.vo missing: model not evaluated")
 
+    phases["model"] = round(time.time() - t1, 1)
+    if not info["ok"]:          # a stale Props.vo must not count as discharged
+        info["discharged"] = sum(1 for n in info.get("theorems", []) if not n.startswith("Props.v:")) if "forbidden" not in str(info["failed"]) else 0
+
     # ---- spec side: overloaded call vs. direct calls (implementation only)
     spec_fail, selected_hist, crashes = [], {}, 0
     for c, ic in zip(cases, impl):
         if any(v[0] == 9 for v in ic.values()):
             crashes += 1
         k, exp = spec_expected(ic, c)
-        if k is None:
-            spec_fail.append((c, ic, "crash", None))
+        if k is None:              # a direct call crashed: no verdict about the overloaded call
             continue
         selected_hist[k] = selected_hist.get(k, 0) + 1
         if not same_outcome(exp, ic["main"]):
@@ -143,12 +161,18 @@ def run(ctx):
         ctx.report(G.case_key(c), "counterexample", thm, d)
 
     # ---- correspondence: model (with the flag read from the source) vs implementation
-    mismatches, sensitive, fallthrough, rejected, agree = [], 0, 0, 0, 0
+    mismatches, sensitive, fallthrough, rejected, agree, follows = [], 0, 0, 0, 0, {}
     if model is not None:
         for c, ic, mc in zip(mono, impl, model):
             names = [fn for fn, _ in G.direct_calls(c)]
-            m = mc[cp_flag]
-            bad = [fn for fn, tok in zip(names, m) if not (tok == ic[fn] or (tok == [0] and ic[fn][0] == 0))]
+            def diff(m):
+                return [fn for fn, tok in zip(names, m) if not (tok == ic[fn] or (tok == [0] and ic[fn][0] == 0))]
+            if cp_flag is None:      # translator failed: which of the two models does the code follow?
+                bad = min(diff(mc[True]), diff(mc[False]), key=len)
+                if diff(mc[True]) != diff(mc[False]):
+                    follows[not diff(mc[True])] = follows.get(not diff(mc[True]), 0) + 1
+            else:
+                bad = diff(mc[cp_flag])
             if bad:
                 mismatches.append((c, ic, mc, bad))
             else:
@@ -164,8 +188,9 @@ def run(ctx):
             d = describe(c)
             d.update({"what": "model and implementation disagree", "functions": bad,
                       "implementation": {fn: ic[fn] for fn in bad},
-                      "model(copies_args as read from source = %s)" % cp_flag: dict(zip([fn for fn, _ in G.direct_calls(c)], mc[cp_flag])),
-                      "model(other flag)": dict(zip([fn for fn, _ in G.direct_calls(c)], mc[not cp_flag])),
+                      "copies_args_in_source": cp_flag,
+                      "model(copies_args=true)": dict(zip([fn for fn, _ in G.direct_calls(c)], mc[True])),
+                      "model(copies_args=false)": dict(zip([fn for fn, _ in G.direct_calls(c)], mc[False])),
                       "replay": REPLAY})
             ctx.report("model:" + G.case_key(c), "correspondence", "Overload.tc vs check() under repo_shim", d)
 
@@ -206,7 +231,7 @@ def run(ctx):
         least_accepting_variant_histogram={str(k): v for k, v in sorted(selected_hist.items())},
         position_histogram=pos_hist, arity_histogram={str(k): v for k, v in sorted(arity_hist.items())},
         variants_histogram={str(k): v for k, v in sorted(nvar_hist.items())},
-        copies_args_in_source=cp_flag, samples=samples, notes=ctx.notes)
+        copies_args_in_source=cp_flag, implementation_follows_model_with_copies_args={str(k): v for k, v in follows.items()}, phase_seconds=phases, samples=samples, notes=ctx.notes)
     return ctx.finish(LEVEL, cov, [
         "overloaded.py's loop is read as: try variants in func_ids order, return the first that raises no GuppyError, else _call_error raises",
         "a failed attempt changes nothing but the argument nodes it was given (no global/context state)",
